@@ -76,6 +76,10 @@ def numeral_value(cx, s):
         return cx.chk_int(int(s))
     if re.fullmatch(r"-?(0|[1-9][0-9]*)(\.[0-9]+)?([eE][+-]?[0-9]+)?", s):
         return cx.chk_real(Fraction(s))
+    if re.fullmatch(r"-?(0|[1-9][0-9]*)\.", s) and s not in ("-0.",):
+        return cx.chk_real(Fraction(s[:-1]))      # "12." is the real 12
+    if re.fullmatch(r"[+-]?0[xX].*", s) or re.fullmatch(r"[+.].*|-\..*", s) or re.fullmatch(r"-?[0-9]+\.[eE].*", s):
+        raise Out()                               # hex, "+5", ".5", "5.e1": numerals outside the exact sub-language
     return None
 
 
@@ -345,6 +349,11 @@ DECS = ["0.5", "1.5", "2.25", "0.25", "10.75", "3.0", "2.0", "0.125", "7.5", "10
         "2E2", "1.5e1", "75e-2", "-0.5", "-2.25", "-1.5", "-3.0", "4.0", "1e0", "12.5"]
 INEXACT_DECS = ["0.1", "0.2", "0.3", "1.1", "2.7", "3.14", "0.7", "1e-1", "33e-2"]
 TEXTS = ["abc", "a", "true", "false", "null", "xyz", "Qentem", "ab", "abd", "x1"]
+# values of variables only (never literal operands): text that STARTS like a numeral but is not
+# entirely one -- it is text, not a numeric string -- and numerals with a trailing dot
+PREFIX_TEXTS = ["12abc", "3 apples", "7 ", " 7", "1.5x", "-4x", "1 2", "5e", "0x1G", "+5x", "1..2", "1-2",
+                "1e5x", "01", "12a", "5e+", "1.2.3", "0.5.", "2 ", "10/2", "3+4", "1,5", "- 3", "12 abc", "00"]
+DOT_NUMERALS = ["12.", "5.", "0.", "-3."]
 
 
 def rand_env(rng):
@@ -359,6 +368,9 @@ def rand_env(rng):
         "s": ("s", rng.choice(TEXTS)),
         "u": ("s", rng.choice(TEXTS)),
         "e": ("s", ""),
+        "px": ("s", rng.choice(PREFIX_TEXTS)),
+        "py": ("s", rng.choice(PREFIX_TEXTS)),
+        "pd": ("s", rng.choice(DOT_NUMERALS)),
         "t": ("t",), "f": ("f",), "z": ("z",), "a": ("a",),
     }
     # drop some so that they are missing
@@ -368,8 +380,8 @@ def rand_env(rng):
     return env
 
 
-NUMVARS = ["n", "m", "i", "r", "ns", "ni", "nr", "t", "f", "z"]
-ALLVARS = NUMVARS + ["s", "u", "e", "a", "q"]
+NUMVARS = ["n", "m", "i", "r", "ns", "ni", "nr", "t", "f", "z", "pd"]
+ALLVARS = NUMVARS + ["s", "u", "e", "a", "q", "px", "py", "pd"]
 
 
 def rand_num_leaf(rng, allow_var=True, inexact=False, small=False):
@@ -454,7 +466,7 @@ def accept(tree, env, allow_inexact=False):
 
 def gen_cases(rng, tier, boost=1):
     cases = []
-    dist = {"adjacent_ops": 0, "random_trees": 0, "equality": 0, "kind_pairs": 0, "trailing_prefix": 0, "inexact": 0, "single": 0, "novalue": 0}
+    dist = {"adjacent_ops": 0, "random_trees": 0, "equality": 0, "kind_pairs": 0, "trailing_prefix": 0, "prefix_text": 0, "inexact": 0, "single": 0, "novalue": 0}
     nov = [0]
 
     def emit(tree, env, cls, extra=0.25, allow_inexact=False):
@@ -634,6 +646,37 @@ def gen_cases(rng, tier, boost=1):
         q = rng.choice(qs)
         cases.append("Q%d:%s %s %s" % (ord(q), ",".join(str(ord(c)) for c in text), ser_env(env), ser_tree(pt) if wellformed else "x"))
         dist["trailing_prefix"] += 1
+
+    # 8. variables holding text with a numeric PREFIX ("12abc", "3 apples", "7 "): they are text, so
+    #    arithmetic / comparisons on them have no value, == compares the text, alone they are "non-empty"
+    made = 0
+    tries = 0
+    n = (500 if tier == "quick" else 8000) * boost
+    while made < n and tries < 30 * n:
+        tries += 1
+        env = rand_env(rng)
+        env["px"] = ("s", rng.choice(PREFIX_TEXTS))
+        pv = ("v", rng.choice(["px", "px", "py"]))
+        if "py" not in env:
+            env["py"] = ("s", rng.choice(PREFIX_TEXTS))
+        r = rng.random()
+        other = rand_num_leaf(rng, small=True)
+        if r < 0.35:
+            t = ("o", rng.choice(ALL), pv, other) if rng.random() < 0.5 else ("o", rng.choice(ALL), other, pv)
+        elif r < 0.55:
+            t = ("o", rng.choice([3, 4]), pv, rng.choice([("v", "px"), ("v", "py"), ("v", "ns"), ("n", 12), ("n", 7), ("t", "abc"), ("p", pv)]))
+        elif r < 0.7:
+            t = pv if rng.random() < 0.5 else ("p", pv)
+        elif r < 0.85:
+            t = ("o", rng.choice(ALL), ("o", rng.choice(ARITH), pv, other), rand_num_leaf(rng, small=True))
+        else:
+            t = ("o", rng.choice([1, 2]), ("p", pv), other)
+        nov_before = nov[0]
+        nov[0] = 0            # this class is mostly "no value" on purpose: exempt from the quota
+        okc = emit(strip_p(t), env, "prefix_text", extra=rng.choice([0, 0.2]))
+        nov[0] = nov_before + (nov[0] if okc else 0)
+        if okc:
+            made += 1
 
     # 5. real arithmetic with inexact intermediates (+ * / only): model must agree bit for bit,
     #    oracle within 2^-40
